@@ -16,6 +16,16 @@ Engine P (product enumeration), oracle mc/oracle/cp1.py.  Four sections:
            bounded / unbounded disk x {elementwise, pairwise}, single disks and composite
            arrays: contains / intersects = the set-theoretic answer.
 
+Disks are built through the constructor (centre, radius), through complement(), and directly
+from stored data chosen by the harness (three boundary points + one interior point, rows
+scaled by real or complex multipliers, interior point finite / far outside / exactly oo), so
+that the set-theoretic sections do not depend on the constructor.  In the Moebius and pair
+sections the ground truth is the disk *as stored* (oracle circle through the stored boundary
+points, side of the stored interior point): the constructor defect (F9) is then reported by
+the disks section only.  Thorough tier adds: products of two alphabet matrices, the whole
+disk lattice for the Moebius section, the pair family under two more similarities, a 97 x 97
+sphere lattice.
+
 Conventions read from the code (complex_projective.py, projective.py) and re-validated on
 anchor points by the points section: homogeneous coordinates are rows [w0, w1] with affine
 coordinate z = w1/w0 (standard chart 0), oo = [0, 1]; Transformation matrices act on rows from
